@@ -121,6 +121,7 @@ __asm__(
 "  jmp ext_scramble\n"
 ".endm\n"
 "EXTENTRY 0\nEXTENTRY 1\nEXTENTRY 2\nEXTENTRY 3\nEXTENTRY 4\nEXTENTRY 5\nEXTENTRY 6\nEXTENTRY 7\n"
+"EXTENTRY 8\nEXTENTRY 9\nEXTENTRY 10\nEXTENTRY 11\nEXTENTRY 12\nEXTENTRY 13\nEXTENTRY 14\nEXTENTRY 15\n"
 "ext_scramble:\n"
 "  movabs rcx, 0x0c0c0c0c0c0c0c0c\n"
 "  movabs rdx, 0x0d0d0d0d0d0d0d0d\n"
@@ -138,13 +139,14 @@ __asm__(
 ".data\n"
 "ext_entries:\n"
 "  .quad ext_entry_0, ext_entry_1, ext_entry_2, ext_entry_3, ext_entry_4, ext_entry_5, ext_entry_6, ext_entry_7\n"
+"  .quad ext_entry_8, ext_entry_9, ext_entry_10, ext_entry_11, ext_entry_12, ext_entry_13, ext_entry_14, ext_entry_15\n"
 ".text\n"
 ".att_syntax prefix\n"
 );
-extern uint64_t ext_entries[8];
+extern uint64_t ext_entries[16];
 
 /* kinds: 0 none 1 i8 2 u8 3 i16 4 u16 5 i32 6 u32 7 i64 8 u64 9 f32 10 f64 11 ptr */
-struct extdecl { char name[64]; int argkind; int retkind; } exts[8];
+struct extdecl { char name[64]; int argkind; int retkind; } exts[16];
 static int ext_count;
 static char trace[1 << 16];
 static size_t trace_len;
@@ -164,7 +166,7 @@ static uint64_t narrow(uint64_t v, int kind) {
 /* rdi = first integer argument as passed, rsi = external index, rdx -> {xmm0 in, xmm0 out};
    returns rax.  Mirrors vlib.refinterp.default_external. */
 uint64_t ext_c(uint64_t a, uint64_t k, uint64_t *x) {
-  struct extdecl *e = &exts[k & 7];
+  struct extdecl *e = &exts[k & 15];
   uint64_t acc;
   const char *p;
   ext_count++;
@@ -202,7 +204,7 @@ int main(int argc, char **argv) {
   if (!f) die("script");
   table = mmap((void *)0x0F000000UL, 4096, PROT_READ | PROT_WRITE, MAP_PRIVATE | MAP_ANONYMOUS | MAP_FIXED, -1, 0);
   if (table == MAP_FAILED) die("table");
-  for (i = 0; i < 8; i++) table[i] = ext_entries[i];
+  for (i = 0; i < 16; i++) table[i] = ext_entries[i];
   while (getline(&line, &cap, f) > 0) {
     char op = line[0];
     char *p = line + 1;
@@ -224,7 +226,7 @@ int main(int argc, char **argv) {
     } else if (op == 'E') {
       int k, a, r; char name[64];
       if (sscanf(p, "%d %63s %d %d", &k, name, &a, &r) != 4) die("E");
-      strcpy(exts[k & 7].name, name); exts[k & 7].argkind = a; exts[k & 7].retkind = r;
+      strcpy(exts[k & 15].name, name); exts[k & 15].argkind = a; exts[k & 15].retkind = r;
     } else if (op == 'S') {
       for (i = 0; i < nregions; i++) if (regions[i].writable) {
         regions[i].save = malloc(regions[i].size);
